@@ -78,7 +78,7 @@ def run(ctx):
             elif r < 0.45:
                 opts["config"] = {"compallsen": True, "beam": 0, "pbeam": 0, "wbeam": 0}
                 opts["audio"] = rng.choice(["gf", "head", "mid", "cut", "tail", "t4", "t5", "quiet"])
-            cases.append(decmatrix.make_case(rng, ctx, i, {"result", "partial", "alignment"}, opts))
+            cases.append(decmatrix.make_case(rng, ctx, i, {"result", "partial", "alignment", "json"}, opts))
         for j in range(2 if quick else 12):
             cases.append(two_utterance_case(rng, n + j))
     by_id = dict(cases)
@@ -111,6 +111,33 @@ def run(ctx):
             continue
         p = decmatrix.write_replay(ctx, "reject_" + f.exec_id, by_id[f.exec_id])
         rep.violation(classify(f), "event %d of %s breaks clause %s: %s" % (f.local_line, f.exec_id, f.clause, f.event.strip()[:400]), p)
+    # the alignment as decoder_result_json(d, start, 1|2) prints it (the property's third observation point): the JSON
+    # lines of the same executions against the alignment the call used (JsonTrace); level 0 is C14's business
+    from checks import c14
+    jch = [(eid, decmatrix.filter_events(ch, c14.KEEP)) for eid, ch in chunks]
+    jch = [(eid, ch) for eid, ch in jch if any(l.startswith('{"e":"Json"') for l in ch)]
+    _, jfails, jres = tracecheck.validate(c14.SPEC, "JsonTrace.tla", "JsonTrace.cfg", jch, ctx.work, timeout=2400, max_fail=12,
+                                          heap="8g")
+    for r in jres:
+        rep.add_tlc("JsonTrace(levels 1-2)", r, mode="trace-validation")
+    for f in jfails:
+        try:
+            lvl = json.loads(f.event).get("level", 0)
+        except Exception:
+            lvl = 0
+        if lvl < 1:
+            continue
+        c2, cr2 = decmatrix.run_cases(ctx, drv, [(f.exec_id, by_id[f.exec_id])])
+        f2 = []
+        if c2:
+            _, f2, _ = tracecheck.validate(c14.SPEC, "JsonTrace.tla", "JsonTrace.cfg",
+                                           [(e, decmatrix.filter_events(c, c14.KEEP)) for e, c in c2], ctx.work)
+        if not f2 and not cr2:
+            continue
+        p = decmatrix.write_replay(ctx, "reject_json_" + f.exec_id, by_id[f.exec_id])
+        rep.violation("align-json:%s" % (f.clause or "unknown-clause"),
+                      "event %d of %s: the level-%d JSON does not say what the alignment says (clause %s): %s" %
+                      (f.local_line, f.exec_id, lvl, f.clause, bytes(json.loads(f.event).get("bytes", [])).decode(errors="replace")[:300]), p)
     rep.rule = ("alignment trees from the decode matrix (final + partial, default/compallsen/open-beam configurations); "
                 "non-trivial = distinct alignment with >= 3 words")
     rep.assumptions += ["dictionary pronunciations and the expected senone sequence of a phone are read through the public "
